@@ -89,6 +89,8 @@ func c34Run(line string) string {
 		return "safe"
 	case f[0] == "race":
 		return c34Race(f[1:])
+	case f[0] == "pwt":
+		return c34PopWithTimer(f[1:])
 	}
 	q := NewPriorityQueue()
 	var outs []string
@@ -244,6 +246,78 @@ func c34Race(f []string) string {
 	return "ok"
 }
 
+// c34PopWithTimer: `pwt <seed> <rounds>`.  Conservation under a concurrent PopWithTimer: each
+// round starts PopWithTimer on an EMPTY queue, then pushes one transaction and fires the timer
+// at about the same moment (the delays vary with the seed so that different poll windows are
+// hit).  Whatever the schedule, the transaction must afterwards be either the value PopWithTimer
+// returned or still in the queue; `lost` counts the rounds where it is neither (returned nil,
+// yet the transaction has left the queue).  Only conservation is asserted, nothing about who
+// wins the race, so the output does not depend on timing: `lost=0 rounds=<n>`.
+func c34PopWithTimer(f []string) string {
+	if len(f) != 2 {
+		return "bad-op"
+	}
+	seed, _ := strconv.Atoi(f[0])
+	rounds, _ := strconv.Atoi(f[1])
+	if rounds < 1 || rounds > 200 {
+		return "bad-op"
+	}
+	r := vhNewRng(uint64(seed)*977 + 5)
+	lost, dup := 0, 0
+	for i := 0; i < rounds; i++ {
+		q := NewPriorityQueue()
+		q.pollInterval = time.Duration(1+r.Intn(20)) * time.Microsecond
+		timerCh := make(chan time.Time, 1)
+		result := make(chan *ValidTransaction, 1)
+		go func() { result <- q.PopWithTimer(timerCh) }()
+		// let PopWithTimer find the queue empty and start polling
+		time.Sleep(time.Duration(50+r.Intn(300)) * time.Microsecond)
+		tx := c34Tx(i%200, uint64(r.Intn(3)))
+		if _, err := q.Push(tx); err != nil {
+			return "err"
+		}
+		if d := r.Intn(4); d > 0 { // 0: fire at once; else a few poll intervals later
+			time.Sleep(time.Duration(d*r.Intn(15)) * time.Microsecond)
+		}
+		timerCh <- time.Time{}
+		var got *ValidTransaction
+		select {
+		case got = <-result:
+		case <-time.After(20 * time.Second):
+			return "timeout"
+		}
+		time.Sleep(2 * time.Millisecond) // give a background poller time to finish
+		inQueue := 0
+		for vt := q.Pop(); vt != nil; vt = q.Pop() {
+			if vt != tx {
+				return "foreign-tx"
+			}
+			inQueue++
+		}
+		yielded := 0
+		if got != nil {
+			if got != tx {
+				return "foreign-tx"
+			}
+			yielded = 1
+		}
+		switch yielded + inQueue {
+		case 0:
+			lost++
+		case 1:
+		default:
+			dup++
+		}
+		if len(q.txs) != 0 {
+			return "inconsistent"
+		}
+	}
+	if dup > 0 {
+		return fmt.Sprintf("lost=%d dup=%d rounds=%d", lost, dup, rounds)
+	}
+	return fmt.Sprintf("lost=%d rounds=%d", lost, rounds)
+}
+
 func c34GenSeq(r *vhRng) string {
 	nh := 2 + r.Intn(10) // hash alphabet
 	np := 1 + r.Intn(3)  // priority alphabet: few values so that ties are common
@@ -305,8 +379,14 @@ func c34Gen(r *vhRng) string {
 	if c34Drawn <= len(c34TypeNames) { // every shard starts with the three table cases
 		return c34TableCase(c34TypeNames[c34Drawn-1])
 	}
-	if r.Intn(300) == 0 {
+	if c34Drawn == len(c34TypeNames)+1 { // every shard runs one concurrent PopWithTimer scenario
+		return fmt.Sprintf("pwt %d 40", r.Intn(100000))
+	}
+	switch r.Intn(600) {
+	case 0, 1:
 		return c34TableCase(c34TypeNames[r.Intn(len(c34TypeNames))])
+	case 2:
+		return fmt.Sprintf("pwt %d %d", r.Intn(100000), 20+r.Intn(30))
 	}
 	return c34GenSeq(r)
 }
